@@ -9,7 +9,7 @@ BASELINE_OFF = ("cmake -G Ninja -B /repo/_build -S /repo >/dev/null && cmake --b
 
 # id -> dict(level, text, note, technique)
 # properties whose check is built, validated (3 seeds silent, mutants caught) and claimed
-READY = ["C02", "C03", "C07", "C08", "C09", "C10", "C12"]
+READY = ["C02", "C03", "C04", "C05", "C07", "C08", "C09", "C10", "C11", "C12"]
 
 CHECKS = {
     "C02": dict(
@@ -32,6 +32,37 @@ CHECKS = {
              "Disabled interval, early PeerClosed, misordered flush, overlapping callbacks, non-sticky or late overflow. Thorough tier enumerates a 129,024-history small scope completely.",
         note="One receiveSync caller per session (documented contract); events are ordered only when one ended before the other began on the global sequence, overlapping events accept either order.",
         technique="runtime monitoring: position-encoded stream + offline history checker over scripted-engine and real-TCP executions, condvar delay injection, TSan/ASan"),
+    "C04": dict(
+        level="exploration",
+        text="Batches of 1-32 concurrent connectSync / connectSyncCancellable callers on a fresh real Transport against 14 scripted loopback targets (accepting, refusing, "
+             "black-holing, reset after accept, TLS ok / wrong CA / garbage / slow / stalled / reset after ClientHello, resolver failure and slow resolver via a getaddrinfo "
+             "interposer, TLS requested without TLS configured) with timeouts swept 0..20 ms so completion and expiry collide, seeded cancels, and a pre-park delay before "
+             "pthread_cond_clockwait that makes the 'success arrives in the unlock window of the timeout path' ordering frequent. The oracle joins the client-boundary history "
+             "{call, return}, the global callback log and the raw peer's own view: ok(sid) <-> exactly one live, echo-verified peer connection; no global onConnect/onClose for an id "
+             "never handed out; every non-ok attempt leaves no open connection; definite error codes; return within timeout + slack (judged only when a heartbeat shows the process was scheduled, re-run in isolation).",
+        note="Real DNS and unroutable addresses are emulated (resolver interposer, listen(fd,0) black hole); timing verdicts are watchdogs with isolated re-run, logical rules decide.",
+        technique="runtime monitoring: client-boundary call/return history + peer-side view + global callback log, condvar pre-park delay injection, TSan/ASan"),
+    "C05": dict(
+        level="exploration",
+        text="Teardown storms on real TCP and UDP transports: callers verifiably parked in connectSync (black hole), receiveSync and a setReadMode flush held in a slow data callback, "
+             "racers entering those calls around the teardown instant, storm threads doing send/close/addListener/connect until stop() has returned; teardown by stop() from another "
+             "thread, last owner dropped on a user thread / inside onClose / inside onData (deferred self-destruct), stop() from a callback (must throw logic_error), start/stop cycles, "
+             "two concurrent stops. Oracles: ASan+UBSan and TSan with reports fatal (any report with an iora frame is a violation), a per-call return deadline measured from the moment "
+             "teardown began (15 s against 60 s call timeouts, isolated re-run), a callback fence stamped when stop() returned, and clean failure of every operation issued afterwards.",
+        note="Compiled with -fno-access-control only to read the parked-caller counters under iora's own lock (observation of which interleaving class was hit). Absence of races holds for the interleavings TSan saw. "
+             "Two open known findings (two concurrent stop() calls: the loser returns while the winner still joins the I/O thread).",
+        technique="runtime monitoring: sanitizers + call-return deadlines + callback fence over teardown storms, schedule perturbation"),
+    "C11": dict(
+        level="fault_enumeration",
+        text="A file-operation interposer (open/fopen/write/writev/rename/truncate/unlink/close) records every operation the real KVStore / JsonFileStore issues during a seeded history, tagged "
+             "with the API call in flight and with when each call returned. Crash images are materialised by replaying the trace up to operation k and byte cut b (process-crash model) — every "
+             "operation boundary plus structural byte cuts per write in quick, every byte of every small write in thorough — and each image is recovered by a fresh store in a forked child "
+             "(a crash, abort or hang of recovery is itself observed), dumped, continued with further operations, closed, reopened and dumped again (second-level crashes in thorough). An "
+             "independent Python oracle computes the admissible states: last returned operation per key, old-or-new for keys touched by the in-flight call, never torn/foreign/resurrected; "
+             "JsonFileStore: last completed flush or the one in progress, never empty/unreadable.",
+        note="Process-crash model as the property states it (data handed to the OS survives; fsync is recorded, not executed). Exhaustive per history over the cuts enumerated (reported per history in the evidence); "
+             "writes larger than the every-byte limit get sampled cuts. TTL keys use far-future expiries so expiry does not blur the admissible set (expiry semantics are C12's).",
+        technique="fault enumeration by trace replay: recorded file-operation trace cut at every boundary/byte, recovery in a child process, independent admissible-state oracle, ASan"),
     "C07": dict(
         level="fault_enumeration",
         text="A pruned 511-cell configuration matrix (verify on/off x trust anchor x server certificate x client certificate x protocol ceiling x peer kind x entry point "
